@@ -100,10 +100,15 @@ def query_traversal(node, callback, is_table=False, is_target=False, parent_quer
         return res
 
     if isinstance(node, ast.Select):
-        if node.from_table is not None:
-            node_out = query_traversal(node.from_table, callback, is_table=True, parent_query=node)
-            if node_out is not None:
-                node.from_table = node_out
+        if node.cte is not None:
+            array = []
+            for cte in node.cte:
+                node_out = query_traversal(cte.query, callback, parent_query=node)
+                if node_out is not None:
+                    # replace the body of the CTE, not the CTE entry itself
+                    cte.query = node_out
+                array.append(cte)
+            node.cte = array
 
         array = []
         for node2 in node.targets:
@@ -114,15 +119,10 @@ def query_traversal(node, callback, is_table=False, is_target=False, parent_quer
                 array.append(node_out)
         node.targets = array
 
-        if node.cte is not None:
-            array = []
-            for cte in node.cte:
-                node_out = query_traversal(cte.query, callback, parent_query=node)
-                if node_out is not None:
-                    # replace the body of the CTE, not the CTE entry itself
-                    cte.query = node_out
-                array.append(cte)
-            node.cte = array
+        if node.from_table is not None:
+            node_out = query_traversal(node.from_table, callback, is_table=True, parent_query=node)
+            if node_out is not None:
+                node.from_table = node_out
 
         if node.where is not None:
             node_out = query_traversal(node.where, callback, parent_query=node)
@@ -157,12 +157,12 @@ def query_traversal(node, callback, is_table=False, is_target=False, parent_quer
             node.right = node_out
 
     elif isinstance(node, ast.Join):
-        node_out = query_traversal(node.right, callback, is_table=True, parent_query=parent_query)
-        if node_out is not None:
-            node.right = node_out
         node_out = query_traversal(node.left, callback, is_table=True, parent_query=parent_query)
         if node_out is not None:
             node.left = node_out
+        node_out = query_traversal(node.right, callback, is_table=True, parent_query=parent_query)
+        if node_out is not None:
+            node.right = node_out
         if node.condition is not None:
             node_out = query_traversal(node.condition, callback, parent_query=parent_query)
             if node_out is not None:
@@ -237,11 +237,6 @@ def query_traversal(node, callback, is_table=False, is_target=False, parent_quer
             if node_out is not None:
                 node.table = node_out
 
-        if node.where is not None:
-            node_out = query_traversal(node.where, callback, parent_query=node)
-            if node_out is not None:
-                node.where = node_out
-
         if node.update_columns is not None:
             changes = {}
             for k, v in node.update_columns.items():
@@ -255,6 +250,11 @@ def query_traversal(node, callback, is_table=False, is_target=False, parent_quer
             node_out = query_traversal(node.from_select, callback, parent_query=node)
             if node_out is not None:
                 node.from_select = node_out
+
+        if node.where is not None:
+            node_out = query_traversal(node.where, callback, parent_query=node)
+            if node_out is not None:
+                node.where = node_out
 
     elif isinstance(node, ast.CreateTable):
         array = []
